@@ -3,6 +3,8 @@ package main
 // Stubs for go-rangers' environment: logging, configuration, clocks.
 
 import (
+	"go/types"
+
 	"golang.org/x/tools/go/ssa"
 )
 
@@ -32,7 +34,75 @@ func (in *Interp) repoGlobal(pkgPath, name string) *Ptr {
 	return &Ptr{obj: in.globalObj(g)}
 }
 
+// newNamedStruct allocates a zero value of the named struct type pkg.name.
+func (in *Interp) newNamedStruct(pkgPath, name string) (*Ptr, *types.Struct) {
+	pkg := in.prog.ImportedPackage(pkgPath)
+	if pkg == nil {
+		panic(unsupported{"package not loaded: " + pkgPath})
+	}
+	t := pkg.Type(name)
+	if t == nil {
+		panic(unsupported{"type not found: " + pkgPath + "." + name})
+	}
+	st := t.Type().Underlying().(*types.Struct)
+	return &Ptr{obj: in.newObj(t.Type(), in.zero(t.Type()), name)}, st
+}
+
+func fieldIndex(st *types.Struct, name string) int {
+	for i := 0; i < st.NumFields(); i++ {
+		if st.Field(i).Name() == name {
+			return i
+		}
+	}
+	panic(unsupported{"field not found: " + name})
+}
+
 func init() {
+	// service.InitMinerManager: the registry object without its LevelDB public-key cache
+	reg(repoMod+"service.InitMinerManager", func(in *Interp, fr *frame, a []Value, _ *ssa.CallCommon) Value {
+		p, st := in.newNamedStruct(repoMod+"service", "MinerManager")
+		in.store(p.sub(fieldIndex(st, "logger")), mkStubIface("logger"))
+		in.store(in.repoGlobal(repoMod+"service", "MinerManagerImpl"), p)
+		return nil
+	})
+	// unsafe string/bytes conversions
+	reg(repoMod+"utility.StrToBytes", func(in *Interp, fr *frame, a []Value, _ *ssa.CallCommon) Value {
+		return in.mkByteSlice(in.strBytes(a[0]))
+	})
+	reg(repoMod+"utility.BytesToStr", func(in *Interp, fr *frame, a []Value, _ *ssa.CallCommon) Value {
+		return in.mkStr(in.sliceTerms(a[0].(Slice)))
+	})
+	// cryptographic cores of the precompiled contracts: outside SMT reach; replaced by one of their
+	// possible results (failure / zero output). Input-length handling around them stays real.
+	errRes := func(n int) intrinsic {
+		return func(in *Interp, fr *frame, a []Value, _ *ssa.CallCommon) Value {
+			t := make(Tuple, n)
+			for i := 0; i < n-1; i++ {
+				t[i] = (*Ptr)(nil)
+			}
+			t[n-1] = in.newError("stubbed cryptographic core")
+			return t
+		}
+	}
+	reg(repoMod+"vm.newCurvePoint", errRes(2))
+	reg(repoMod+"vm.newTwistPoint", errRes(2))
+	reg(repoMod+"eth_crypto.Ecrecover", func(in *Interp, fr *frame, a []Value, _ *ssa.CallCommon) Value {
+		return Tuple{Slice{}, in.newError("stubbed ecrecover")}
+	})
+	reg(repoMod+"eth_crypto.SigToPub", errRes(2))
+	reg(repoMod+"eth_crypto/blake2b.F", zeroRes)
+	for _, n := range []string{"G1Add", "G1Mul", "G1MultiExp", "G2Add", "G2Mul", "G2MultiExp", "Pairing", "MapG1", "MapG2"} {
+		reg("(*"+repoMod+"vm.bls12381"+n+").Run", func(in *Interp, fr *frame, a []Value, site *ssa.CallCommon) Value {
+			return Tuple{Slice{}, in.newError("stubbed bls12381 precompile")}
+		})
+	}
+	reg("(*"+repoMod+"vm.ripemd160hash).Run", func(in *Interp, fr *frame, a []Value, _ *ssa.CallCommon) Value {
+		bs := make([]*Term, 32)
+		for i := range bs {
+			bs[i] = in.mkByte(0)
+		}
+		return Tuple{in.mkByteSlice(bs), Iface{}}
+	})
 	lg := func(in *Interp, fr *frame, a []Value, _ *ssa.CallCommon) Value { return mkStubIface("logger") }
 	reg(repoMod+"middleware/log.GetLogger", lg)
 	reg(repoMod+"middleware/log.GetLoggerByIndex", lg)
@@ -42,6 +112,7 @@ func init() {
 	// common.Init(instanceIndex, configFile, env): chain configuration without files/loggers
 	reg(repoMod+"common.Init", func(in *Interp, fr *frame, a []Value, _ *ssa.CallCommon) Value {
 		in.store(in.repoGlobal(repoMod+"common", "DefaultLogger"), mkStubIface("logger"))
+		in.store(in.repoGlobal(repoMod+"common", "GlobalConf"), mkStubIface("conf"))
 		in.callSSA(fr, in.repoFunc(repoMod+"utility", "Init"), []Value{mkStubIface("logger")}, nil, false)
 		in.callSSA(fr, in.repoFunc(repoMod+"common", "initChainConfig"), []Value{a[2]}, nil, false)
 		return nil
